@@ -207,10 +207,13 @@ class SmtLibSolver(Solver): # TODO this class is defined twice in pysmt. Here an
 
     def get_model(self):
         assignment = {}
-        for s in self.declared_vars[-1]:
-            if s.is_term():
-                v = self.get_value(s)
-                assignment[s] = v
+        # All the symbols that are in scope, not only the ones
+        # declared in the last level
+        for frame in self.declared_vars:
+            for s in frame:
+                if s.is_term():
+                    v = self.get_value(s)
+                    assignment[s] = v
         return EagerModel(assignment=assignment, environment=self.environment)
 
     def _exit(self):
